@@ -52,7 +52,36 @@ struct Case {
     paths: Vec<String>,
 }
 
+/// Git quirk (known finding `double-star-after-literal-prefix`): `match_pathname` compares the
+/// literal prefix of a pattern itself and hands only the rest to wildmatch, so a `**` that directly
+/// follows a literal byte other than `/` looks as if it were at the start of the pattern and gets
+/// the "`**/` / trailing `**`" treatment.  True when the line has this shape.
+fn git_prefix_quirk(line: &str) -> bool {
+    let mut s = line.trim_end_matches('\r');
+    s = s.strip_prefix('!').unwrap_or(s);
+    let mut t = s.trim_end_matches(' ').to_string();
+    if t.ends_with('\\') && t.len() < s.len() { t.push(' '); }
+    let anchored = t.starts_with('/');
+    let body = t.strip_prefix('/').unwrap_or(&t);
+    let body = body.strip_suffix('/').unwrap_or(body);
+    if !anchored && !body.contains('/') { return false; }
+    let b = body.as_bytes();
+    let Some(i) = b.iter().position(|c| b"*?[\\".contains(c)) else { return false };
+    if i == 0 || b[i - 1] == b'/' || !(b[i] == b'*' && b.get(i + 1) == Some(&b'*')) { return false; }
+    let mut j = i;
+    while j < b.len() && b[j] == b'*' { j += 1; }
+    // the pattern text git sees keeps a trailing `/` only as a flag, so `j == len` covers `a**/` too
+    j == b.len() || b[j] == b'/' || (b[j] == b'\\' && b.get(j + 1) == Some(&b'/'))
+}
+
 fn gen_pattern(r: &mut Rng, hot: &[&str]) -> String {
+    loop {
+        let s = gen_pattern_raw(r, hot);
+        if !git_prefix_quirk(&s) { return s; }
+    }
+}
+
+fn gen_pattern_raw(r: &mut Rng, hot: &[&str]) -> String {
     match r.below(24) { 0 => return "# comment".into(), 1 => return "".into(), 2 => return "!".into(), 3 => return "/".into(), _ => {} }
     let k = if r.chance(1, 2) { 1 } else { 1 + r.below(3) };
     let comps: Vec<String> = (0..k).map(|_| {
@@ -316,7 +345,9 @@ fn parse_probe(line: &str) -> Case {
 /// goes through the tie; otherwise it is an oracle-only case.
 fn finding_cases(out: &mut Out, env: &mut Env) {
     let many_stars = format!("={}\\n|{},b", "a*".repeat(70), "a".repeat(70));
-    let cases: [(&str, &str, bool); 7] = [
+    let cases: [(&str, &str, bool); 8] = [
+        // Git itself departs from gitignore(5) here (see `git_prefix_quirk`); jj follows the documentation
+        ("gitignore:double-star-after-literal-prefix", "=a**/b\\n|ax/y/b,a/b,ab/c", true),
         // gix-glob gives up (no match) at recursion depth 64 = 64 nested `*` frames; Git has no limit
         ("gitignore:wildmatch-recursion-limit", &many_stars, false),
         // gix-ignore drops every line that starts with `!$` (reserved for "precious" syntax): no re-inclusion
